@@ -947,6 +947,9 @@ func (s *subscriptionState) done() {
 func (s *subscriptionState) complete() {
 	s.writeMu.Lock()
 	defer s.writeMu.Unlock()
+	if s.removed.Load() {
+		return
+	}
 	s.writer.Complete()
 }
 
@@ -955,6 +958,9 @@ func (s *subscriptionState) complete() {
 func (s *subscriptionState) error(data []byte) {
 	s.writeMu.Lock()
 	defer s.writeMu.Unlock()
+	if s.removed.Load() {
+		return
+	}
 	s.writer.Error(data)
 }
 
